@@ -14,7 +14,8 @@ RULE = ('S3: exhaustive layout construction (channels -1..257 x mapping families
         'multistream packet validation on concatenations of 1..24 self-delimited packets of equal or unequal duration, mutated; '
         'opus_multistream_decode_native with a scripted per-stream decoder and a logging copy callback (call trace); '
         'opus_multistream_encode with scripted per-stream encoders (real repacketizer; curr_max values, return value and bytes); '
-        'opus_projection_decoder_create/init on exported and arbitrary matrices; in_float/out_float in the exact binary32 domain; '
+        'opus_projection_decoder_create/init on exported and arbitrary matrices; in_float/out_float/in_int24 in the exact binary32 '
+        'domain, out_int24 with arbitrary floats and accumulators up to the int32 limits; '
         'mapping_matrix in_short/out_short on all ten built-in matrices in the exact float domain, out_short with accumulators '
         'placed on the int16 saturation boundary (sum = 32766..32769, -32770..-32767), and every impulse round trip. '
         'S4: RFC 7845/8486 layouts for every family x channels 1..255; real surround / multistream / projection encoders '
@@ -31,7 +32,8 @@ NOT_COVERED = [
     'decoders (same state evolution per stream) is established by the S4 search, not proved',
     'float paths of the mapping matrices (in_float/out_float/in_short) are modelled as exact dyadic functions and tied only '
     'inside the exact binary32 domain (no rounding); outside it the float round trip is only searched (impulse oracle); '
-    'the int24 paths are not modelled',
+    'the int24 input path is tied only inside the exact binary32 domain; that decoded floats stay within +-1.0 (so that '
+    'matrix_int24_exact applies to |sample| <= 2^23) is not proved',
     'mapping family 3 of RFC 8486 allows orders 0..14; the code has matrices for orders 1..5 only (other counts are rejected)',
     'opus_int32 overflow: C int as unbounded integers (all quantities here are below 2^31 by the argument checks)',
 ]
@@ -44,9 +46,11 @@ REQUIRED_THEOREMS = ['OpusProps.C10.validate_spec', 'OpusProps.C10.create_reject
                      'OpusProps.C10.demix_inverts_mix', 'OpusProps.C10.ms_packet_structure',
                      'OpusProps.C10.matrix_short_saturates', 'OpusProps.C10.ms_encode_packet_structure',
                      'OpusProps.C10.import_export_demix', 'OpusProps.C10.isqrt32_correct',
-                     'OpusProps.C10.projdec_create_rejects']
-UNPROVED = ['that the real per-stream encoder meets EncContract (valid packet of the common frame size, <= curr_max bytes, '
-            'zero padding): ms_encode_packet_structure assumes it (C02/C05/C07 territory); monitored by the S4 search on real encoders',
+                     'OpusProps.C10.projdec_create_rejects', 'OpusProps.C10.ms_encode_packet_structure_skel',
+                     'OpusProps.C10.ambisonics_channel_identity', 'OpusProps.C10.projection_mix_demix_identity',
+                     'OpusProps.C10.matrix_int24_exact']
+UNPROVED = ['the inner SILK/CELT/analysis contracts of the encoder skeleton (SkelOk) are the only assumption left under '
+            'ms_encode_packet_structure_skel; they are C02/C05 oracle contracts, monitored there and by the S4 search here',
             'equality of the streams inside a multistream decoder with stand-alone decoders (per-stream codecs are opaque)']
 
 
@@ -99,6 +103,9 @@ _CLAUSE = {
              '(theorem ms_encode_packet_structure)',
     'projdec': 'projection decoder creation: argument checks and the imported demixing matrix (theorems projdec_create_rejects, '
                'import_export_demix)',
+    'mixin24': 'int24 input path of the mapping-matrix multiply = exact linear combination (exact binary32 domain)',
+    'mixout24': 'int24 output path of the mapping-matrix multiply = Q15 multiply-accumulate converted to int32 without '
+                'saturation (theorem matrix_int24_exact)',
     'mixinf': 'float input path of the mapping-matrix multiply = exact linear combination (exact binary32 domain)',
     'mixoutf': 'float output path of the mapping-matrix multiply = exact multiply-accumulate (exact binary32 domain)',
 }
@@ -311,7 +318,10 @@ LEVEL_TEXT = ('proof about the Lean transcription of the layout code: validate_l
               'opus_multistream_packet_validate accepts (on top of C07 cat_first / outRangeImpl theorems), and the unchecked '
               'repacketizer return value is never negative; opus_projection_decoder_init/create accept exactly the documented '
               'arguments (never abort) and the matrix imported from the exported bytes is the restricted demixing matrix; isqrt32 is '
-              'the integer square root on 1..2^32-1')
+              'the integer square root on 1..2^32-1; with the C02/C05 encoder skeleton in every stream the packet-structure theorem needs '
+              'only the skeleton-internal DSP contracts (the skeleton pads with zeros only); family-2 and family-3 channels keep '
+              'their identity (and, for projection, their level up to the stated gain, with the decoder-side copy of the matrix); '
+              'the int24 output path is an exact, non-saturating Q15 accumulate that cannot wrap on 24-bit samples')
 LEVEL_NOTE = ('trusted: Lean kernel; extractors for vorbis_mappings and the ten int16 matrices (re-run on every check, cross-checked '
               'by the correspondence suites); the correspondence harness. Equality with stand-alone decoders and the encoder packet '
               'structure rest on the S4 search (implementation only).')
